@@ -649,6 +649,17 @@ pub fn check_cellsim(property: &str, tier: &str) -> i32 {
     if unexpected * 5 > total_ops.max(1) {
         harness_errors.push(json!({"what": "more than 20% of the generated well-typed operations are rejected by the checker: workload vacuous, no verdict", "rejected": unexpected, "operations": total_ops}));
     }
+    // second engine (C16 thorough only): the crate as shipped under Miri's seeded scheduler
+    let miri = if property == "C16" && thorough {
+        let procs: u64 = std::env::var("VERIF_MIRI_PROCS").ok().and_then(|s| s.parse().ok()).unwrap_or(16);
+        let rounds: u64 = std::env::var("VERIF_MIRI_ROUNDS").ok().and_then(|s| s.parse().ok()).unwrap_or(12);
+        let ph = crate::mirisim::phase(seed, procs, rounds);
+        confirmed.extend(ph.violations);
+        harness_errors.extend(ph.harness_errors);
+        ph.coverage
+    } else {
+        json!({"status": "thorough tier of C16 only"})
+    };
     let wall = t0.elapsed().as_secs_f64();
     let (rule, distinct) = if property == "C13" {
         (
@@ -684,6 +695,7 @@ pub fn check_cellsim(property: &str, tier: &str) -> i32 {
         "boot_seeds": boots,
         "worker_processes": boots * shards,
         "unconfirmed_candidates": unconfirmed,
+        "miri_phase": miri,
         "real_vs_stub": {"real": ["parser", "checker", "recreate", "exec", "variable::Mut", "assign::exec/try_exec", "indirection", "Mut::string", "lazy_static helper functions (ITER/MAP/FILTER)"], "model": ["std::sync::RwLock -> writer-preferring simulated lock (std's Linux futex policy) over a real inner std RwLock"], "stub": ["OS threads -> shuttle tasks", "stdout captured"]},
         "exhaustive": false,
     });
@@ -710,6 +722,7 @@ pub fn confirm_any(sim: &str, v: &Value) -> Result<bool, String> {
         "cellsim" => confirm_cellsim(v),
         "ossim" => confirm_ossim(v),
         "replsim" => confirm_replsim(v),
+        "miri" => crate::mirisim::confirm(v),
         other => Err(format!("unknown sim {other}")),
     }
 }
